@@ -116,12 +116,12 @@ Fixpoint mrun29 (c : cfg) (m : mon29) (tr : list (lop * lout)) : verdict * mon29
 Definition accepts29 (c : cfg) (tr : list (lop * lout)) : Prop := fst (mrun29 c (minit29 c) tr) = Ok.
 
 (* ---- the environment of the _partial theorem, decided on the observed trace:
-   (a) fewer than max_events connection callbacks are delivered by one operation (then no try_push can have failed:
+   (a) fewer than max_events callbacks (of any kind) are delivered by one operation (then no try_push can have failed:
        the ring is drained at the end of every operation);
    (b) disconnect() is not called between requested and established;
    (c) no assert fails. *)
 Definition ring_callbacks (it : list item) : nat :=
-  length (filter (fun i => match i with ICb (EvCpr _ _ _ _) => false | ICb _ => true | _ => false end) it).
+  length (filter (fun i => match i with ICb _ => true | _ => false end) it).
 
 Definition env_step29 (m : mon29) (o : lop) (r : lout) : bool :=
   match r with
